@@ -390,6 +390,10 @@ class PrintRunner:
         self.exe = self.hl.exe
         self.env = self.hl.env
         self.variant = None
+        self.xvariant = "unchanged"      # list_push_hostlist's retry condition; probed by the CLI part (xlist_check)
+
+    def margs(self):
+        return ["model", self.variant, self.xvariant]
 
     def build(self):
         from vlib.common import REPO
@@ -433,7 +437,7 @@ class PrintRunner:
             lines += self.OPS[1:]
             if i in exact:
                 lines += self.EXACT
-        out = self.ctx.model("print", "".join(l + "\n" for l in lines), args=["model", self.variant], timeout=1800)
+        out = self.ctx.model("print", "".join(l + "\n" for l in lines), args=self.margs(), timeout=1800)
         res, pos = [], 0
         for i, d in enumerate(dumps):
             k = 1 + len(self.OPS) - 1 + (len(self.EXACT) if i in exact else 0)
